@@ -44,7 +44,7 @@ def pMultiAlias (ts : List Tok) : R (List String) :=
 def skipNot (d : Gen.D) (r0 : List Tok) : Bool × List Tok :=
   match r0 with | t :: r => if (Gen.notSet d).contains (up t.src) then (true, r) else (false, r0) | [] => (false, r0)
 def chainsOn (r : List Tok) : Bool :=
-  match r with | t :: _ => ["NOT","BETWEEN","IS","IN","LIKE","RLIKE","REGEXP"].contains t.src | [] => false
+  match r with | t :: _ => ["NOT","BETWEEN","IS","IN","LIKE","RLIKE","REGEXP"].contains (up t.src) | [] => false
 def substringRewrite (u : String) (cs : List Tok) : List Tok :=
   if u == "SUBSTRING" then cs.map (fun t => if up t.src == "FROM" || up t.src == "FOR" then Tok.single [','] 0 else t) else cs
 
@@ -122,10 +122,12 @@ def orderTail (e : Expr) (ts : List Tok) : R OrderItem :=
   let nf := moveTwoUp d.2 "NULLS" "FIRST"
   let nl := moveTwoUp nf.2 "NULLS" "LAST"
   if nf.1 && nl.1 then .error .parse else .ok (.mk e d.1 nf.1 nl.1, nl.2)
-/-- CAST parameter list (no close on the inner cursor) -/
+/-- CAST parameter list -/
 def castParamsLoop : Nat → List Int → List Tok → Except Err (List Int)
   | 0, _, _ => .error .fuel
-  | f+1, acc, ts => if searchStr ts "," then (match popInt (ts.drop 1) with | .ok (n, r) => castParamsLoop f (acc ++ [n]) r | .error e => .error e) else .ok acc
+  | f+1, acc, ts =>
+    if searchStr ts "," then (match popInt (ts.drop 1) with | .ok (n, r) => castParamsLoop f (acc ++ [n]) r | .error e => .error e)
+    else if ts.isEmpty then .ok acc else .error .parse   -- `parenthesis_scanner.close()`
 def castParams (g : Tok) : Except Err (List Int) :=
   match g.children with
   | [] => .ok []
@@ -304,7 +306,7 @@ def pUnary (d : Gen.D) : Nat → List Tok → R Expr
   | f+1, ts =>
     match ts with
     | t :: r => if (Gen.unarySet d).contains t.src then
-        (match computeOp? t.src with
+        (match computeOp? (up t.src) with
          | none => .error .parse
          | some (o, _) => match pUnary d f r with
            | .ok (e, r2) => .ok (.unary o e, r2) | .error e => .error e)
@@ -320,7 +322,7 @@ def pComputeLoop (d : Gen.D) : Nat → List (Expr × String × Nat) → Expr →
   | f+1, st, top, ts =>
     match ts with
     | t :: r =>
-      (match computeOp? t.src with
+      (match computeOp? (up t.src) with
        | some (o, k) =>
          let (st', top') := reduceWhile k st top
          match pUnary d f r with
@@ -345,11 +347,11 @@ def pKwRest (d : Gen.D) : Nat → Expr → Bool → List Tok → R Expr
   | 0, _, _, _ => .error .fuel
   | f+1, bv, isNot, r1 =>
     match r1 with
-    | [] => .ok (bv, r1)
+    | [] => if isNot then .error .parse else .ok (bv, r1)
     | t :: r2 =>
       match pKwBody d f (up t.src) isNot bv r2 with
       | .error e => .error e
-      | .ok none => .ok (bv, r1)
+      | .ok none => if isNot then .error .parse else .ok (bv, r1)
       | .ok (some (v, r)) => if chainsOn r then pKeyword d f (some v) r else .ok (v, r)
 def pKwBody (d : Gen.D) : Nat → String → Bool → Expr → List Tok → Except Err (Option (Expr × List Tok))
   | 0, _, _, _, _ => .error .fuel
@@ -562,7 +564,7 @@ def pTableExpr (d : Gen.D) : Nat → List Tok → R TableRef
     | .error e => .error e
     | .ok cs =>
       if startsSelect cs then (match pSubQuery d f ts with | .ok (.subQuery q, r) => .ok (.sub q, r) | .ok _ => .error (.unmodelled "impossible") | .error e => .error e)
-      else if searchMark ts PAREN then (match pTableExpr d f cs with | .ok (t, _) => .ok (t, ts.drop 1) | .error e => .error e)
+      else if searchMark ts PAREN then (match closed (pTableExpr d f cs) with | .ok t => .ok (t, ts.drop 1) | .error e => .error e)
       else pTableName ts
 def pFromTable (d : Gen.D) : Nat → List Tok → R FromTable
   | 0, _ => .error .fuel
